@@ -1,9 +1,24 @@
 /-
 C07 — Lists and dictionaries are copied on assignment; objects are shared.
 Theorems about `dup` (value.DuplicateValue) and the copying sites of the model evaluator.
+
+Vocabulary (Proofs/Heap.lean): `content n h a` is the deep read of the value at address `a` as a `Tree` (lists and
+dictionaries read through, objects/methods/types/exceptions are `ref` of their own address); it is defined for some
+fuel exactly when everything below `a` is well formed and acyclic (`content_defined_iff`).  `Reach h a i`: cell `i` is
+reachable from `a` through list / dictionary links (never through objects).  `Mutable h i` / `Shared h i`: the cell
+is of a kind DuplicateValue copies (number, text, boolean, list, dictionary) / does not copy (空, object, method,
+type, exception).  `Disj h a b`: `a` and `b` have no copied-kind cell in common.  `MutSeq a b h h'`: a history of
+allocations and of writes into copied-kind cells below `b`, taking `h` to `h'`.  `resolve x s`: the address the name
+`x` denotes in state `s` (vm.FindElement).
 -/
 import ZnVerif.Model.Interp
+import ZnVerif.Proofs.Heap
+import ZnVerif.Proofs.HeapFrames
+import ZnVerif.Proofs.HeapMutators
+import ZnVerif.Proofs.HeapSites
+import ZnVerif.Proofs.HeapMono
 set_option linter.unusedSectionVars false
+set_option linter.unusedVariables false
 
 namespace ZnVerif.Properties.C07
 open ZnVerif.Model
@@ -23,5 +38,663 @@ theorem dup_shares_objects (n : Nat) (a : Addr) (s : VM ν) (c : Cell ν)
 theorem dup_copies_number (n : Nat) (a : Addr) (s : VM ν) (x : ν) (hc : s.heap[a]? = some (.num x)) :
     dup (n+1) a s = (.ok s.heap.size, { s with heap := s.heap.push (.num x) }) := by
   simp [dup, bind, getCell, hc, newNum, alloc]
+
+/-! ## 1–2. a duplicate is a separate deep copy, and duplication is total on readable values -/
+
+/-- **dup_separates.**  On every value that can be read (`content` defined within the fuel: well formed, acyclic, fuel
+sufficient) `dup` succeeds with an address `b` such that (i) `b` reads as the same value; (ii) no cell of the old heap
+changed; (iii) every number / text / boolean / list / dictionary cell reachable from `b` is new — the copy shares only
+空, objects, methods, types, exceptions with anything that existed before; (iv) nothing but the heap changed; and no
+link below `b` dangles. -/
+theorem dup_separates (n : Nat) (a : Addr) (s : VM ν) (t : Tree ν) (ht : content n s.heap a = some t) :
+    ∃ b s', dup n a s = (.ok b, s') ∧
+      content n s'.heap b = some t ∧
+      (s.heap.size ≤ s'.heap.size ∧ ∀ i, i < s.heap.size → s'.heap[i]? = s.heap[i]?) ∧
+      (∀ i, Reach s'.heap b i → Mutable s'.heap i → s.heap.size ≤ i) ∧
+      s' = { s with heap := s'.heap } ∧
+      (∀ i, Reach s'.heap b i → i < s'.heap.size) := by
+  rcases dup_spec n a s t ht with ⟨b, s', hd, hp⟩
+  refine ⟨b, s', hd, hp.cont, hp.ext, ?_, hp.same, hp.valid⟩
+  intro i hr hm
+  rcases hp.fresh i hr with h | h
+  · exact h
+  · exact absurd h (not_shared_of_mutable hm)
+
+/-- **dup_total.**  Under the same hypothesis `dup` neither panics nor runs out of fuel nor fails otherwise. -/
+theorem dup_total (n : Nat) (a : Addr) (s : VM ν) (t : Tree ν) (ht : content n s.heap a = some t) :
+    ∃ b s', dup n a s = (.ok b, s') := by
+  rcases dup_spec n a s t ht with ⟨b, s', hd, _⟩
+  exact ⟨b, s', hd⟩
+
+/-- the hypothesis in terms of a rank function: on a well-formed value whose links strictly decrease a rank `rk`,
+fuel `rk a + 1` suffices for `dup` -/
+theorem dup_total_of_acyclic (a : Addr) (s : VM ν) (rk : Addr → Nat)
+    (hacy : ∀ i c x, Reach s.heap a i → s.heap[i]? = some c → x ∈ c.children → rk x < rk i)
+    (hwf : WellFormed s.heap a) :
+    ∃ b s', dup (rk a + 1) a s = (.ok b, s') := by
+  rcases content_of_acyclic rk hacy hwf (rk a + 1) a (.refl _) (Nat.lt_succ_self _) with ⟨t, ht⟩
+  exact dup_total _ a s t ht
+
+/-- "readable" is exactly "well formed and acyclic" -/
+theorem readable_iff_acyclic (h : Array (Cell ν)) (a : Addr) :
+    (∃ n t, content n h a = some t) ↔ Acyclic h a ∧ WellFormed h a := content_defined_iff h a
+
+/-- without the hypothesis the conclusion fails: on a list that contains itself `dup` runs out of fuel, whatever the fuel -/
+theorem dup_cyclic_out_of_fuel (n : Nat) (s : VM ν) (a : Addr) (hc : s.heap[a]? = some (.arr [a])) :
+    dup n a s = (.fuel, s) := by
+  induction n with
+  | zero => rfl
+  | succ n ih => simp [dup, bind, getCell, hc, ih]
+
+/-- on a list that links back to itself — here cell 1 = `[cell 0, cell 1]` — `dup` (and with it every copying site)
+exhausts every fuel: value.DuplicateValue recurses without end -/
+theorem dup_on_cycle_never_returns (n : Nat) : ∀ (s : VM ν) (x : ν), s.heap[0]? = some (.num x) →
+    s.heap[1]? = some (.arr [0, 1]) → (dup n 1 s).1 = .fuel := by
+  induction n with
+  | zero => intro s x _ _; rfl
+  | succ n ih =>
+    intro s x h0 h1
+    cases n with
+    | zero => simp [dup, bind, getCell, h1, outOfFuel]
+    | succ k =>
+      have hs : 1 < s.heap.size := lt_size_of_getElem? h1
+      have hd0 : dup (k+1) 0 s = (.ok s.heap.size, { s with heap := s.heap.push (.num x) }) := by
+        simp [dup, bind, getCell, h0, newNum, alloc]
+      have hq := ih { s with heap := s.heap.push (.num x) } x
+        (by simp only [Array.getElem?_push]; rw [if_neg (by omega)]; exact h0)
+        (by simp only [Array.getElem?_push]; rw [if_neg (by omega)]; exact h1)
+      rw [dup]
+      simp only [bind, getCell, h1, List.mapM_cons, List.mapM_nil, hd0]
+      cases hr : dup (k+1) 1 { s with heap := s.heap.push (.num x) } with
+      | mk r s2 =>
+        rw [hr] at hq
+        simp only at hq
+        subst hq
+        rfl
+
+/-! ## 3. frame lemma and independence of copies -/
+
+/-- **frame_lemma.**  Writing cell `i` does not change the deep read of any `a` from which `i` is not reachable. -/
+theorem frame_lemma (n : Nat) (h : Array (Cell ν)) (a i : Addr) (c : Cell ν) (hn : ¬ Reach h a i) :
+    content n (h.set! i c) a = content n h a := ZnVerif.Model.frame_lemma c i n h a hn
+
+/-- the same, for the model's `setCell` -/
+theorem setCell_frame (n : Nat) (s s' : VM ν) (a i : Addr) (c : Cell ν) (hn : ¬ Reach s.heap a i)
+    (h : setCell i c s = (.ok (), s')) : content n s'.heap a = content n s.heap a := by
+  rw [(setCell_ok_inv h).2]; exact ZnVerif.Model.frame_lemma c i n s.heap a hn
+
+/-- **copy_independent.**  After `b := dup a`, ANY history of mutations made through `b` — allocations, and writes into
+number / text / boolean / list / dictionary cells reachable (at that time) from `b` that store links to cells reachable
+from `b` or allocated since (`sep_child_of_reach`, `sep_child_of_fresh`) — leaves the deep read of `a` unchanged; and
+symmetrically any such history through `a` leaves the deep read of `b` unchanged.  (Induction on the history.) -/
+theorem copy_independent (n : Nat) (a b : Addr) (s s' : VM ν) (t : Tree ν) (ht : content n s.heap a = some t)
+    (hd : dup n a s = (.ok b, s')) :
+    (∀ h', MutSeq a b s'.heap h' → content n h' a = some t) ∧
+    (∀ h', MutSeq b a s'.heap h' → content n h' b = some t) := by
+  have hp := dup_post ht hd
+  have hsep := sep_after_dup ht hd
+  exact ⟨fun h' ms => (mutSeq_preserves ms n t hsep (content_ext hp.ext n a t ht)).1,
+    fun h' ms => (mutSeq_preserves ms n t hsep.symm hp.cont).1⟩
+
+/-- the general form: two separated values stay independent (and separated) under any history through one of them -/
+theorem separated_independent (n : Nat) (a b : Addr) (h h' : Array (Cell ν)) (t : Tree ν) (hs : Sep h a b)
+    (ht : content n h a = some t) (ms : MutSeq a b h h') : content n h' a = some t ∧ Sep h' a b :=
+  mutSeq_preserves ms n t hs ht
+
+/-! ## 4. mutators write only the receiver's own cell -/
+
+/-- **mutators_frame (built-in methods).**  Every built-in method of a list, dictionary, number or text value
+(新增 添加 前增 后增 左移 右移 合并 交换 写入 移除 自增 自减 and all the non-mutating ones), with any arguments and whatever
+its outcome, changes nothing but the heap, never shrinks it, and leaves every old cell other than the receiver's own
+cell `a` untouched. -/
+theorem mutators_frame (n : Nat) (a : Addr) (name : String) (vals : List Addr) (s s' : VM ν) (r : Res Addr)
+    (h : builtinMethod n a name vals s = (r, s')) :
+    s' = { s with heap := s'.heap } ∧ s.heap.size ≤ s'.heap.size ∧
+      ∀ i, i < s.heap.size → i ≠ a → s'.heap[i]? = s.heap[i]? :=
+  (builtinMethod_frame n a name vals).run s r s' h
+
+/-- **mutators_frame (element, key and property assignment).**  `reduceLHS` on a root `a` — `a#i = v`, `a#{k} = v`,
+`a 之 p = v` — writes only the cell `a`. -/
+theorem stores_frame (kind : Nat) (a : Addr) (name : String) (idx : Int) (v : Addr) (s s' : VM ν) (r : Res Unit)
+    (h : reduceLHS (kind, a, name, idx) v s = (r, s')) :
+    s' = { s with heap := s'.heap } ∧ s.heap.size ≤ s'.heap.size ∧
+      ∀ i, i < s.heap.size → i ≠ a → s'.heap[i]? = s.heap[i]? :=
+  (reduceLHS_frame kind a name idx v).run s r s' h
+
+/-- **mutators_frame (setProperty).** -/
+theorem setProperty_frame (a : Addr) (name : String) (v : Addr) (s s' : VM ν) (r : Res Unit)
+    (h : setProperty a name v s = (r, s')) :
+    s' = { s with heap := s'.heap } ∧ s.heap.size ≤ s'.heap.size ∧
+      ∀ i, i < s.heap.size → i ≠ a → s'.heap[i]? = s.heap[i]? :=
+  (ZnVerif.Model.setProperty_frame a name v).run s r s' h
+
+/-- `dup`, `display`, comparison and parameter validation write nothing at all / only allocate -/
+theorem dup_only_allocates (n : Nat) (a : Addr) (s s' : VM ν) (r : Res Addr) (h : dup n a s = (r, s')) :
+    s' = { s with heap := s'.heap } ∧ s.heap.size ≤ s'.heap.size ∧ ∀ i, i < s.heap.size → s'.heap[i]? = s.heap[i]? := by
+  have := (dup_grow n a).run s r s' h
+  exact ⟨this.1, this.2.1, this.2.2⟩
+
+theorem display_reads_only (n : Nat) (a : Addr) (s s' : VM ν) (r : Res String) (h : display n a s = (r, s')) : s' = s :=
+  (display_same n a).run s r s' h
+
+/-! ## 5. the copying sites -/
+
+/-- **vardecl_stores_copy.**  After `令 x₁、…、x_k 为 e` (type 1) or `… 恒为 e` (type 3) succeeded, where `e` evaluated to
+`obj` reading as `t`: there is one address per name; each reads as `t`; every copied-kind cell below any of them was
+allocated after `e` was evaluated; no two of them, and none of them and `obj`, have a copied-kind cell in common; and
+(for distinct names) each name denotes its own address. -/
+theorem vardecl_stores_copy (n ln ty : Nat) (vars : List Ident) (e : Expr) (s s' : VM ν) (r : Addr)
+    (hty : ty = 1 ∨ ty = 3)
+    (h : evalStmt (n+1) (.varDecl ln [(ty, vars, e)]) s = (.ok r, s')) :
+    ∃ s0 obj s1, setTopFrame (fun fr => { fr with line := ln }) s = (.ok (), s0) ∧ evalExpr n e s0 = (.ok obj, s1) ∧
+      ∀ t, content n s1.heap obj = some t →
+        ∃ bs : List Addr, bs.length = vars.length ∧
+          (∀ b ∈ bs, content n s'.heap b = some t) ∧
+          (∀ b ∈ bs, ∀ i, Reach s'.heap b i → Mutable s'.heap i → s1.heap.size ≤ i) ∧
+          bs.Pairwise (Disj s'.heap) ∧
+          (∀ b ∈ bs, Disj s'.heap obj b) ∧
+          ((vars.map (·.lit)).Nodup → ∀ p ∈ (vars.map (·.lit)).zip bs, resolve p.1 s' = some p.2) := by
+  rcases varDecl_spec n ln ty vars e s s' r hty h with ⟨s0, obj, s1, h0, h1, hall⟩
+  refine ⟨s0, obj, s1, h0, h1, fun t ht => ?_⟩
+  rcases hall t ht with ⟨bs, _, hc, hd⟩
+  refine ⟨bs, by simpa using hc.len, fun b hb => (hc.each b hb).1, fun b hb i hr hm => ?_, hc.apart, hd, hc.bound⟩
+  rcases (hc.each b hb).2.2 i hr with h | h
+  · exact h
+  · exact absurd h (not_shared_of_mutable hm)
+
+/-- a 令 statement is the sequence of its groups, each group being evaluated as above -/
+theorem vardecl_groups (n ln : Nat) (pairs : List (Nat × List Ident × Expr)) :
+    evalStmt (ν := ν) (n+1) (.varDecl ln pairs) = (do
+      setTopFrame fun fr => { fr with line := ln }
+      pairs.forM (declPair n)
+      newNull) := evalStmt_varDecl n ln pairs
+
+/-- **assign_stores_copy (`x = e`).**  The assigned name denotes a duplicate `r` of what `e` evaluated to: same deep read,
+every copied-kind cell below it new, nothing copied-kind in common with the source. -/
+theorem assign_stores_copy (n ln : Nat) (i : Ident) (rhs : Expr) (s s' : VM ν) (r : Addr)
+    (h : evalExpr (n+1) (.assign ln (.id i) rhs) s = (.ok r, s')) :
+    ∃ vr s1, evalExpr n rhs s = (.ok vr, s1) ∧
+      ∀ t, content n s1.heap vr = some t →
+        content n s'.heap r = some t ∧
+        (∀ j, Reach s'.heap r j → Mutable s'.heap j → s1.heap.size ≤ j) ∧
+        Disj s'.heap vr r ∧
+        (lookup i.lit s1.globals = none → resolve i.lit s' = some r) := by
+  rcases assign_id_spec n ln i rhs s s' r h with ⟨vr, s1, s2, hrhs, hdup, hheap, hself, _⟩
+  refine ⟨vr, s1, hrhs, fun t ht => ?_⟩
+  have hp := dup_post ht hdup
+  have hsep := sep_after_dup ht hdup
+  have hg : s2.globals = s1.globals := by have := hp.same; unfold SameBut at this; rw [this]
+  rw [hheap]
+  refine ⟨hp.cont, fun j hr hm => ?_, hsep.disj, fun hgl => hself (by rw [hg]; exact hgl)⟩
+  rcases hp.fresh j hr with h | h
+  · exact h
+  · exact absurd h (not_shared_of_mutable hm)
+
+/-- **assign_stores_copy (`c#i = e`, `c#{k} = e`, `c 之 p = e`).**  What is stored is the duplicate `r` (which is also
+the value of the assignment expression), and the store puts exactly `r` into the root's cell. -/
+theorem element_assign_stores_copy (n ln l rt mt : Nat) (root : Expr) (mid : Option Ident) (idx rhs : Expr)
+    (s s' : VM ν) (r : Addr)
+    (h : evalExpr (n+1) (.assign ln (.member l rt root mt mid idx) rhs) s = (.ok r, s')) :
+    ∃ vr s1 s2 iv s3, evalExpr n rhs s = (.ok vr, s1) ∧ dup n vr s1 = (.ok r, s2) ∧
+      memberIV n (.member l rt root mt mid idx) s2 = (.ok iv, s3) ∧ reduceLHS iv r s3 = (.ok (), s') ∧
+      (∀ t, content n s1.heap vr = some t →
+        content n s2.heap r = some t ∧ (∀ j, Reach s2.heap r j → Mutable s2.heap j → s1.heap.size ≤ j) ∧
+        Disj s2.heap vr r) ∧
+      (iv.1 = 1 → ∃ items, s3.heap[iv.2.1]? = some (.arr items) ∧
+        s' = { s3 with heap := s3.heap.set! iv.2.1 (.arr (items.set (iv.2.2.2 - 1).toNat r)) }) ∧
+      (iv.1 = 2 → ∃ vals order, s3.heap[iv.2.1]? = some (.hm vals order) ∧
+        s' = { s3 with heap := (s3.heap.set! iv.2.1 (.hm (hmAppend vals order iv.2.2.1 r).1 (hmAppend vals order iv.2.2.1 r).2)) }) := by
+  rcases assign_member_spec n ln l rt mt root mid idx rhs s s' r h with ⟨vr, s1, s2, iv, s3, hrhs, hdup, hiv, hred⟩
+  refine ⟨vr, s1, s2, iv, s3, hrhs, hdup, hiv, hred, fun t ht => ?_, fun hk => ?_, fun hk => ?_⟩
+  · have hp := dup_post ht hdup
+    refine ⟨hp.cont, fun j hr hm => ?_, (sep_after_dup ht hdup).disj⟩
+    rcases hp.fresh j hr with h | h
+    · exact h
+    · exact absurd h (not_shared_of_mutable hm)
+  · rcases iv with ⟨k, ro, nm, ix⟩
+    simp only at hk; subst hk
+    rcases reduceLHS_arr_spec ro nm ix r s3 s' hred with ⟨items, h1, _, h3⟩
+    exact ⟨items, h1, h3⟩
+  · rcases iv with ⟨k, ro, nm, ix⟩
+    simp only at hk; subst hk
+    exact reduceLHS_hm_spec ro nm ix r s3 s' hred
+
+/-- 遍历 with one loop variable, with the pass named (`iterPass1`) -/
+theorem iterate_unfolds (n ln : Nat) (e : Expr) (x : Ident) (body : Option (List Stmt)) :
+    evalStmt (ν := ν) (n+1) (.iterate ln e [x] body) = (do
+      setTopFrame fun fr => { fr with line := ln }
+      withScope do
+        let target ← evalExpr n e
+        let vn ← matchIDName x.lit
+        let nl ← newNull
+        declareElement vn nl false
+        match ← getCell target with
+        | .arr items =>
+          untilIdxM (fun i v => do
+            let idx ← newNum (NumOps.ofInt (i + 1))
+            iterPass1 n vn body v) 0 items
+        | .hm _ order =>
+          untilM (fun k => do
+            match ← getCell target with
+            | .hm vals _ =>
+              match lookup k vals with
+              | some v => do
+                let ks ← newStr k
+                iterPass1 n vn body v
+              | none => goPanic
+            | _ => goPanic) order
+        | _ => rtErr 80
+      newNull) := evalStmt_iterate1 n ln e x body
+
+/-- **iterate_binds_copy.**  Each pass of `以 x 遍历 c` on an element `v` that reads as `t` first duplicates `v`; the loop
+variable is set to that duplicate `b` — same deep read, all copied-kind cells new, nothing copied-kind in common with
+the element — and only then the body runs.  (`iterPass2_spec`: the same with a key variable.) -/
+theorem iterate_binds_copy (n : Nat) (vn : String) (body : Option (List Stmt)) (v : Addr) (s : VM ν) (t : Tree ν)
+    (ht : content n s.heap v = some t) :
+    ∃ b s1, dup n v s = (.ok b, s1) ∧ content n s1.heap b = some t ∧
+      (∀ j, Reach s1.heap b j → Mutable s1.heap j → s.heap.size ≤ j) ∧ Disj s1.heap v b ∧
+      iterPass1 n vn body v s = tryCatch (do
+        setElement vn b
+        let _ ← evalPureStmtBlock n body
+        pure ()) iterOutcome s1 := by
+  rcases iterPass1_spec n vn body v s t ht with ⟨b, s1, hd, hp, heq⟩
+  refine ⟨b, s1, hd, hp.cont, fun j hr hm => ?_, (sep_after_dup ht hd).disj, heq⟩
+  rcases hp.fresh j hr with h | h
+  · exact h
+  · exact absurd h (not_shared_of_mutable hm)
+
+/-- **new_object_copies_defaults.**  Constructing an object of a type whose default property values read as `ts`
+(whatever the constructor kind): every default is duplicated — the instance's property values `vs` read as `ts` again,
+every copied-kind cell below them is new, and the instance cell `.obj cv (names zip vs)` is allocated before the
+constructor body (`constructTail`) runs. -/
+theorem new_object_copies_defaults (n : Nat) (cv : Addr) (params : List Addr) (s : VM ν) (nm : String) (ctor : Ctor)
+    (props meths : List (String × Addr)) (hc : s.heap[cv]? = some (.cls nm ctor props meths))
+    (ts : List (Tree ν)) (hts : (props.map Prod.snd).mapM (content n s.heap) = some ts) :
+    ∃ (vs : List Addr) (s1 : VM ν), s1 = { s with heap := s1.heap } ∧
+      (s.heap.size ≤ s1.heap.size ∧ ∀ i, i < s.heap.size → s1.heap[i]? = s.heap[i]?) ∧
+      vs.mapM (content n s1.heap) = some ts ∧
+      (∀ v ∈ vs, ∀ j, Reach s1.heap v j → Mutable s1.heap j → s.heap.size ≤ j) ∧
+      construct (n+1) cv params s =
+        constructTail n ctor params s1.heap.size
+          { s1 with heap := s1.heap.push (.obj cv ((props.map Prod.fst).zip vs)) } := by
+  rcases construct_spec n cv params s nm ctor props meths hc ts hts with ⟨vs, s1, hg, hcont, hall, heq⟩
+  refine ⟨vs, s1, hg.1, hg.2, hcont, fun v hv j hr hm => ?_, heq⟩
+  rcases (hall v hv).2 j hr with h | h
+  · exact h
+  · exact absurd h (not_shared_of_mutable hm)
+
+/-- two objects of one type (default constructor), created one after the other, have no copied-kind cell in common
+through their property values -/
+theorem two_objects_share_no_defaults (n : Nat) (cv : Addr) (p1 p2 : List Addr) (s : VM ν) (nm : String)
+    (props meths : List (String × Addr)) (hc : s.heap[cv]? = some (.cls nm .default props meths))
+    (ts : List (Tree ν)) (hts : (props.map Prod.snd).mapM (content n s.heap) = some ts) :
+    ∃ o1 s1 o2 s2 vs1 vs2, construct (n+1) cv p1 s = (.ok o1, s1) ∧ construct (n+1) cv p2 s1 = (.ok o2, s2) ∧
+      s1.heap[o1]? = some (.obj cv ((props.map Prod.fst).zip vs1)) ∧
+      s2.heap[o1]? = some (.obj cv ((props.map Prod.fst).zip vs1)) ∧
+      s2.heap[o2]? = some (.obj cv ((props.map Prod.fst).zip vs2)) ∧ o1 ≠ o2 ∧
+      ∀ v1 ∈ vs1, ∀ v2 ∈ vs2, Disj s2.heap v1 v2 := by
+  rcases construct_spec n cv p1 s nm .default props meths hc ts hts with ⟨vs1, m1, hg1, hcont1, hall1, heq1⟩
+  let s1 : VM ν := { m1 with heap := m1.heap.push (.obj cv ((props.map Prod.fst).zip vs1)) }
+  have e1 : Ext s.heap s1.heap := hg1.2.trans (Ext.push _ _)
+  have hc1 : s1.heap[cv]? = some (.cls nm .default props meths) := e1.get hc
+  have hts1 : (props.map Prod.snd).mapM (content n s1.heap) = some ts :=
+    omapM_mono _ _ _ (fun y _ t' => content_ext e1 n y t') ts hts
+  rcases construct_spec n cv p2 s1 nm .default props meths hc1 ts hts1 with ⟨vs2, m2, hg2, hcont2, hall2, heq2⟩
+  let s2 : VM ν := { m2 with heap := m2.heap.push (.obj cv ((props.map Prod.fst).zip vs2)) }
+  have e12 : Ext s1.heap m2.heap := hg2.2
+  have e2 : Ext m2.heap s2.heap := Ext.push _ _
+  have ho1 : s1.heap[m1.heap.size]? = some (.obj cv ((props.map Prod.fst).zip vs1)) := by simp [s1]
+  refine ⟨m1.heap.size, s1, m2.heap.size, s2, vs1, vs2, heq1, heq2, ho1, (e12.trans e2).get ho1, by simp [s2], ?_, ?_⟩
+  · have h1 : m1.heap.size < s1.heap.size := by simp [s1]
+    have h2 : s1.heap.size ≤ m2.heap.size := e12.1
+    exact Nat.ne_of_lt (Nat.lt_of_lt_of_le h1 h2)
+  · intro v1 hv1 v2 hv2
+    have va : Valid s1.heap v1 := (hall1 v1 hv1).1.ext (Ext.push _ _)
+    have := sep_child_of_fresh (e12.trans e2) va ((hall2 v2 hv2).1.ext e2) ((hall2 v2 hv2).2.ext e2 (hall2 v2 hv2).1)
+    exact this.2
+
+/-! ## 6. objects are shared -/
+
+/-- **objects_shared.**  A duplicate reaches the very same object cells as the original (at any nesting depth inside
+lists and dictionaries), and `dup` did not touch them. -/
+theorem objects_shared (n : Nat) (a b : Addr) (s s' : VM ν) (t : Tree ν) (ht : content n s.heap a = some t)
+    (hd : dup n a s = (.ok b, s')) (o : Addr) (ho : IsRef s.heap o) (hr : Reach s.heap a o) :
+    Reach s'.heap b o ∧ s'.heap[o]? = s.heap[o]? := by
+  have hp := dup_post ht hd
+  refine ⟨content_eq_reach_ref n s.heap s'.heap a b t ht hp.cont o ho hr, ?_⟩
+  rcases ho with ⟨c, hc, _⟩
+  exact hp.ext.2 o (lt_size_of_getElem? hc)
+
+/-- a property write on an object replaces that one cell; afterwards *every* holder — there is only the one cell —
+reads the new value, and no list or dictionary anywhere reads differently (they hold the object's identity) -/
+theorem property_write_seen_by_all (n : Nat) (o : Addr) (name : String) (v : Addr) (s s' : VM ν) (cls : Addr)
+    (props : List (String × Addr)) (hc : s.heap[o]? = some (.obj cls props)) (hn : name ≠ "自身")
+    (h : setProperty o name v s = (.ok (), s')) :
+    getProperty n o name s' = (.ok v, s') ∧ ∀ m a, content m s'.heap a = content m s.heap a := by
+  have hs := setProperty_obj_spec o name v s s' cls props hc h
+  have hlt := lt_size_of_getElem? hc
+  constructor
+  · refine getProperty_obj n o name v s' cls (assocSet name v props) ?_ hn (lookup_assocSet_self name v props)
+    rw [hs]; exact get_set_eq _ _ _ hlt
+  · intro m a
+    rw [hs]
+    exact content_set_ref o _ _ rfl rfl m s.heap a hc
+
+/-! ## 7. literals are fresh -/
+
+/-- **literals_fresh (text, number).**  A text or number literal evaluates to a newly allocated cell. -/
+theorem literals_fresh_str (n ln : Nat) (x : String) (s : VM ν) :
+    evalExpr (n+1) (.str ln x) s = (.ok s.heap.size, { s with heap := s.heap.push (.str x) }) := by
+  simp only [evalExpr]; rfl
+
+theorem literals_fresh_num (n : Nat) (i : Ident) (s : VM ν) (hnum : tryParseNumber (strCps i.lit) = .number) :
+    evalExpr (n+1) (.id i) s =
+      (.ok s.heap.size, { s with heap := s.heap.push (.num (NumOps.parse (parseFloatText (strCps i.lit)))) }) := by
+  simp only [evalExpr, matchIDType, hnum, bind, pure]; rfl
+
+/-- **literals_fresh (list).**  A list literal allocates its container cell after its elements were evaluated: the
+address is the heap size at that moment, hence different from every cell that existed then. -/
+theorem literals_fresh_arr (n ln : Nat) (items : List Expr) (s s' : VM ν) (a : Addr)
+    (h : evalExpr (n+1) (.arr ln items) s = (.ok a, s')) :
+    ∃ vs s1, items.mapM (evalExpr n) s = (.ok vs, s1) ∧ a = s1.heap.size ∧
+      s' = { s1 with heap := s1.heap.push (.arr vs) } := by
+  simp only [evalExpr] at h
+  rcases bind_ok_inv _ _ _ _ _ h with ⟨vs, s1, h1, h2⟩
+  simp only [alloc] at h2
+  injection h2 with e1 e2
+  injection e1 with e1
+  exact ⟨vs, s1, h1, e1.symm, e2.symm⟩
+
+/-- **literals_fresh (dictionary).** -/
+theorem literals_fresh_hm (n ln : Nat) (kvs : List (Expr × Expr)) (s s' : VM ν) (a : Addr)
+    (h : evalExpr (n+1) (.hm ln kvs) s = (.ok a, s')) :
+    ∃ (pairs : List (String × Addr)) (s1 : VM ν), a = s1.heap.size ∧
+      s' = { s1 with heap := s1.heap.push (newHashMapCell pairs) } := by
+  simp only [evalExpr] at h
+  rcases bind_ok_inv _ _ _ _ _ h with ⟨pairs, s1, h1, h2⟩
+  simp only [alloc] at h2
+  injection h2 with e1 e2
+  injection e1 with e1
+  exact ⟨pairs, s1, e1.symm, e2.symm⟩
+
+/-- **the evaluator never shrinks the heap.**  No run of an expression or a statement, whatever its outcome (value, error,
+exception, panic, out of fuel), ends with fewer cells than it started with; so an address `≥` the heap size at some
+moment is different from every cell that existed at that moment, for ever.  (Mutual induction over the whole
+evaluator, Proofs/HeapMono.lean; the same holds for calls, blocks, construction — `evalMono`.) -/
+theorem heap_never_shrinks (n : Nat) :
+    (∀ (e : Expr) (s s' : VM ν) (r : Res Addr), evalExpr n e s = (r, s') → s.heap.size ≤ s'.heap.size) ∧
+    (∀ (st : Stmt) (s s' : VM ν) (r : Res Addr), evalStmt n st s = (r, s') → s.heap.size ≤ s'.heap.size) :=
+  ⟨fun e s s' r h => ((evalMono n).expr e).run s r s' h, fun st s s' r h => ((evalMono n).stmt st).run s r s' h⟩
+
+/-- list, dictionary and text literals -/
+def IsLiteral (e : Expr) : Prop := (∃ ln items, e = .arr ln items) ∨ (∃ ln kvs, e = .hm ln kvs) ∨ (∃ ln x, e = .str ln x)
+
+/-- **literals_fresh.**  A list / dictionary / text literal evaluates to a cell that did not exist before the
+evaluation started (its address is at least the old heap size), whatever its element expressions did. -/
+theorem literals_fresh (n : Nat) (e : Expr) (he : IsLiteral e) (s s' : VM ν) (a : Addr)
+    (h : evalExpr n e s = (.ok a, s')) : s.heap.size ≤ a ∧ a < s'.heap.size := by
+  cases n with
+  | zero => simp [evalExpr, outOfFuel] at h
+  | succ n =>
+    rcases he with ⟨ln, items, rfl⟩ | ⟨ln, kvs, rfl⟩ | ⟨ln, x, rfl⟩
+    · rcases literals_fresh_arr n ln items s s' a h with ⟨vs, s1, h1, rfl, rfl⟩
+      exact ⟨(pres_mapM (R := HeapMono) items (evalMono n).expr).run _ _ _ h1, by simp⟩
+    · have hm := h
+      simp only [evalExpr] at hm
+      rcases bind_ok_inv _ _ _ _ _ hm with ⟨pairs, s1, h1, h2⟩
+      simp only [alloc] at h2
+      injection h2 with e1 e2
+      injection e1 with e1
+      subst e1; subst e2
+      refine ⟨(pres_mapM (R := HeapMono) kvs ?_).run _ _ _ h1, by simp⟩
+      have hE := (evalMono (ν := ν) n).expr
+      pres_auto
+      all_goals exact hE _
+    · rw [literals_fresh_str n ln x s] at h
+      injection h with e1 e2
+      injection e1 with e1
+      subst e1; subst e2
+      exact ⟨Nat.le_refl _, by simp⟩
+
+/-- two evaluations of literals — the same literal executed twice, or two different ones — with anything executed in
+between (`heap_never_shrinks`) yield different cells -/
+theorem literal_evaluations_disjoint (n1 n2 : Nat) (e1 e2 : Expr) (h1 : IsLiteral e1) (h2 : IsLiteral e2)
+    (s s1 s2 s3 : VM ν) (a1 a2 : Addr)
+    (r1 : evalExpr n1 e1 s = (.ok a1, s1)) (between : s1.heap.size ≤ s2.heap.size)
+    (r2 : evalExpr n2 e2 s2 = (.ok a2, s3)) : a1 < a2 := by
+  have q1 : a1 < s1.heap.size := (literals_fresh n1 e1 h1 s s1 a1 r1).2
+  have q2 : s2.heap.size ≤ a2 := (literals_fresh n2 e2 h2 s2 s3 a2 r2).1
+  exact Nat.lt_of_lt_of_le q1 (Nat.le_trans between q2)
+
+/-! ## the model's mutators are mutations "through" their receiver -/
+
+/-- `以 r（后增：x）` on a list cell `r` below `b` is a `MutSeq` through `b` (allocations for the duplicate of `x`, then
+one write to `r`'s own cell) -/
+theorem push_back_is_mutation_through (n : Nat) (a b r x : Addr) (items : List Addr) (s s' : VM ν) (res : Addr) (t : Tree ν)
+    (h : builtinMethod n r "后增" [x] s = (.ok res, s'))
+    (hc : s.heap[r]? = some (.arr items)) (ht : content n s.heap x = some t)
+    (hr : Reach s.heap b r) (hs : Sep s.heap a b) : MutSeq a b s.heap s'.heap :=
+  push_back_mutSeq n a b r x items s s' res t h hc ht hr hs
+
+/-- `c#i = v` / `c#{k} = v` on a cell below `b`, storing a value that is separated from `a` (a duplicate, as the
+assignment expression always stores), is a `MutSeq` through `b` -/
+theorem element_store_is_mutation_through (a b root : Addr) (nm : String) (idx : Int) (v : Addr) (s s' : VM ν)
+    (kind : Nat) (hk : kind = 1 ∨ kind = 2)
+    (h : reduceLHS (kind, root, nm, idx) v s = (.ok (), s'))
+    (hr : Reach s.heap b root) (hs : Sep s.heap a b) (hv : Valid s.heap v ∧ Disj s.heap a v) :
+    MutSeq a b s.heap s'.heap := by
+  rcases hk with rfl | rfl
+  · exact element_store_mutSeq a b root nm idx v s s' h hr hs hv
+  · exact key_store_mutSeq a b root nm idx v s s' h hr hs hv
+
+/-- the same for 前增, 新增, 添加, 写入, 移除, 左移, 右移, 交换, 自增, 自减 — every mutating built-in except 合并, which is *not* of
+this kind: it stores the elements of its argument lists by reference, so `以 B（合并：A）` makes `B` and `A` share their
+elements (the side condition of `MutSeq.write` fails; on the real code `B#2#1 = 9` then changes `A`). -/
+theorem other_mutators_are_mutations_through (n : Nat) (a b r : Addr) (s s' : VM ν) (hr : Reach s.heap b r)
+    (hs : Sep s.heap a b) :
+    (∀ x items res t, builtinMethod n r "前增" [x] s = (.ok res, s') → s.heap[r]? = some (.arr items) →
+        content n s.heap x = some t → MutSeq a b s.heap s'.heap) ∧
+    (∀ name x p pv items res t, name = "新增" ∨ name = "添加" → builtinMethod n r name [x, p] s = (.ok res, s') →
+        s.heap[r]? = some (.arr items) → s.heap[p]? = some (.num pv) → content n s.heap x = some t →
+        MutSeq a b s.heap s'.heap) ∧
+    (∀ k x key vals order res t, builtinMethod n r "写入" [k, x] s = (.ok res, s') → s.heap[r]? = some (.hm vals order) →
+        s.heap[k]? = some (.str key) → content n s.heap x = some t → MutSeq a b s.heap s'.heap) ∧
+    (∀ k key vals order res, builtinMethod n r "移除" [k] s = (res, s') → s.heap[r]? = some (.hm vals order) →
+        s.heap[k]? = some (.str key) → MutSeq a b s.heap s'.heap) ∧
+    (∀ items res, builtinMethod n r "左移" [] s = (res, s') → s.heap[r]? = some (.arr items) → MutSeq a b s.heap s'.heap) ∧
+    (∀ items res, builtinMethod n r "右移" [] s = (res, s') → s.heap[r]? = some (.arr items) → MutSeq a b s.heap s'.heap) ∧
+    (∀ p q pv qv items res, builtinMethod n r "交换" [p, q] s = (res, s') → s.heap[r]? = some (.arr items) →
+        s.heap[p]? = some (.num pv) → s.heap[q]? = some (.num qv) → MutSeq a b s.heap s'.heap) ∧
+    (∀ name v x y res, name = "自增" ∨ name = "自减" → builtinMethod n r name [v] s = (res, s') →
+        s.heap[r]? = some (.num x) → s.heap[v]? = some (.num y) → MutSeq a b s.heap s'.heap) :=
+  ⟨fun x items res t h hc ht => push_front_mutSeq n a b r x items s s' res t h hc ht hr hs,
+   fun name x p pv items res t hn h hc hp ht => insert_mutSeq n a b r x p name hn pv items s s' res t h hc hp ht hr hs,
+   fun k x key vals order res t h hc hk ht => dict_put_mutSeq n a b r k x key vals order s s' res t h hc hk ht hr hs,
+   fun k key vals order res h hc hk => dict_remove_mutSeq n a b r k key vals order s s' res h hc hk hr hs,
+   fun items res h hc => pop_front_mutSeq n a b r items s s' res h hc hr hs,
+   fun items res h hc => pop_back_mutSeq n a b r items s s' res h hc hr hs,
+   fun p q pv qv items res h hc hp hq => swap_mutSeq n a b r p q pv qv items s s' res h hc hp hq hr hs,
+   fun name v x y res hn h hc hv => incr_mutSeq n a b r v name hn x y s s' res h hc hv hr hs⟩
+
+/-- reading `c#i` / `c#{k}` answers a cell that `c`'s cell links to (so access paths below a name stay below what the
+name denotes) and changes nothing -/
+theorem index_read_stays_below (n kind : Nat) (hk : kind = 1 ∨ kind = 2) (root : Addr) (nm : String) (idx : Int)
+    (s s' : VM ν) (v : Addr) (h : reduceRHS n (kind, root, nm, idx) s = (.ok v, s')) :
+    s' = s ∧ Reach s.heap root v := by
+  rcases index_read_reaches n kind hk root nm idx s s' v h with ⟨e, c, hc, hv⟩
+  exact ⟨e, Reach.child hc hv⟩
+
+/-- end to end: `b := dup a`, then `后增` on any list `r` inside the copy (at any depth) — `a` reads as before, and the two
+stay separated, so the same holds for whatever is done next -/
+theorem push_back_on_copy_invisible (n : Nat) (a b r x : Addr) (items : List Addr) (s s1 s2 : VM ν) (res : Addr)
+    (t tx : Tree ν) (ht : content n s.heap a = some t) (hd : dup n a s = (.ok b, s1))
+    (hr : Reach s1.heap b r) (hc : s1.heap[r]? = some (.arr items)) (htx : content n s1.heap x = some tx)
+    (h : builtinMethod n r "后增" [x] s1 = (.ok res, s2)) :
+    content n s2.heap a = some t ∧ Sep s2.heap a b := by
+  have hp := dup_post ht hd
+  have hsep := sep_after_dup ht hd
+  exact mutSeq_preserves (push_back_mutSeq n a b r x items s1 s2 res tx h hc htx hr hsep) n t hsep
+    (content_ext hp.ext n a t ht)
+
+/-! ## what is not proved: the program-level closure -/
+
+/-- literal expressions that mention no name: numbers, texts, lists and dictionaries of such -/
+inductive ClosedLit : Expr → Prop
+  | num (i : Ident) : tryParseNumber (strCps i.lit) = .number → ClosedLit (.id i)
+  | str (ln : Nat) (x : String) : ClosedLit (.str ln x)
+  | arr (ln : Nat) (items : List Expr) : (∀ e ∈ items, ClosedLit e) → ClosedLit (.arr ln items)
+  | hm (ln : Nat) (kvs : List (Expr × Expr)) :
+      (∀ kv ∈ kvs, ∃ l k, kv.1 = .str l k) → (∀ kv ∈ kvs, ClosedLit kv.2) → ClosedLit (.hm ln kvs)
+
+/-- access paths below the name `y`: `y`, `y#i`, `y#i#j`, … with literal indices -/
+inductive PathFrom (y : String) : Expr → Prop
+  | root (ln : Nat) : PathFrom y (.id ⟨ln, y⟩)
+  | index (ln : Nat) (p idx : Expr) : PathFrom y p → ClosedLit idx → PathFrom y (.member ln 1 p 2 none idx)
+
+/-- "a change made through the variable `y`": an element / key assignment `y#i… = literal`, or a built-in method call
+`以 y#i…（m：literals）` -/
+inductive ThroughName (y : String) : Stmt → Prop
+  | assign (ln l : Nat) (p idx rhs : Expr) : PathFrom y p → ClosedLit idx → ClosedLit rhs →
+      ThroughName y (.expr (.assign ln (.member l 1 p 2 none idx) rhs))
+  | method (ln l : Nat) (p : Expr) (m : Ident) (params : List Expr) : PathFrom y p → (∀ e ∈ params, ClosedLit e) →
+      ThroughName y (.expr (.mcall ln p [.call l (some m) params none] none))
+
+/-- The full program-level statement of the first sentence of C07: after `令 y 为 x`, whatever changes are then made
+through `y`, `x` reads as before.  NOT PROVED here.  Proved instead, at the level of the heap and of the evaluator's
+individual operations: `vardecl_stores_copy` (the declaration stores a separated copy), `copy_independent` /
+`separated_independent` (no history of writes below one of two separated values changes the other, by induction on
+the history), `element_store_is_mutation_through`, `push_back_is_mutation_through`,
+`other_mutators_are_mutations_through` (the model's assignment stores and mutating methods are such writes),
+`mutators_frame` (they write nothing else), `literals_fresh` (literal arguments are new cells).  `index_read_stays_below`
+(access paths stay below the name).  Missing for the closure: the induction over the statement list that threads these
+through `evalStmt` / `evalExpr` / `memberIV` / `execMethodFunction` — i.e. the book-keeping of call frames and scopes
+around a method call (they do not touch the heap, but `resolve` has to be followed through `pushFrame` / `popFrame`),
+and that literal arguments are readable and separated values (`literals_fresh` gives freshness of the container only). -/
+def copies_independent_program_level_full : Prop :=
+  ∀ (ν : Type) [NumOps ν] (n : Nat) (x y : String) (stmts : List Stmt) (s s1 s2 : VM ν) (a r1 : Addr) (t : Tree ν)
+    (r2 : Res (Option Addr)),
+    x ≠ y → resolve x s = some a → content n s.heap a = some t →
+    (∀ i, Reach s.heap a i → ¬ IsRef s.heap i) →   -- plain data: no object below `x` (an object's methods run arbitrary code)
+    evalStmt n (.varDecl 0 [(1, [⟨0, y⟩], .id ⟨0, x⟩)]) s = (.ok r1, s1) →
+    (∀ st ∈ stmts, ThroughName y st) →
+    stmtsLoop (evalStmt n) none stmts s1 = (r2, s2) →
+    ∃ a', resolve x s2 = some a' ∧ content n s2.heap a' = some t
+
+/-! ## non-vacuity: concrete instances of the hypotheses above (toy number type `Int`) -/
+
+section examples
+
+/-- a toy number type (no law is assumed anywhere, so any instance will do) -/
+local instance toyNum : NumOps Int where
+  add := (· + ·)
+  sub := (· - ·)
+  mul := (· * ·)
+  div := (· / ·)
+  floor := id
+  ceil := id
+  sqrt := id
+  eq := (· == ·)
+  lt := (· < ·)
+  gt := (· > ·)
+  le := (· ≤ ·)
+  ge := (· ≥ ·)
+  isZero := (· == 0)
+  leZero := (· ≤ 0)
+  ofInt := id
+  toInt := id
+  parse := fun _ => 1
+  fmt := fun x => toString x
+
+/-- `[[1, 2], 3]` at address 4 (inner list at 2) -/
+def exH0 : Array (Cell Int) := #[.num 1, .num 2, .arr [0, 1], .num 3, .arr [2, 3]]
+def exS0 : VM Int := { heap := exH0 }
+/-- the heap after `dup 3 4`: the copy is at 9, its inner list at 7 -/
+def exH1 : Array (Cell Int) :=
+  #[.num 1, .num 2, .arr [0, 1], .num 3, .arr [2, 3], .num 1, .num 2, .arr [5, 6], .num 3, .arr [7, 8]]
+def exS1 : VM Int := { heap := exH1 }
+def exT0 : Tree Int := .list [.list [.num 1, .num 2], .num 3]
+
+/-- hypothesis of dup_separates / dup_total / copy_independent / iterate_binds_copy: a readable nested value -/
+example : content 3 exS0.heap 4 = some exT0 := by rfl
+/-- … and what `dup` answers on it -/
+example : dup 3 4 exS0 = (.ok 9, exS1) := by rfl
+/-- readable ⇒ acyclic and well formed (hypotheses of dup_total_of_acyclic) -/
+example : Acyclic exS0.heap 4 ∧ WellFormed exS0.heap 4 := (readable_iff_acyclic _ _).1 ⟨3, exT0, rfl⟩
+/-- dup_cyclic_out_of_fuel: a list containing itself -/
+example : dup 7 0 ({ heap := #[.arr [0]] } : VM Int) = (.fuel, { heap := #[.arr [0]] }) := dup_cyclic_out_of_fuel 7 _ 0 rfl
+
+/-- the copy's inner list (7) is reachable from the copy (9), is a list cell, and is not reachable from the original:
+hypotheses of frame_lemma and of a `MutSeq` write -/
+example : Reach exH1 9 7 := .step (c := .arr [7, 8]) rfl (by simp [Cell.children]) (.refl 7)
+example : Mutable exH1 7 := ⟨_, rfl, rfl⟩
+example : ¬ Reach exH1 4 7 :=
+  (sep_after_dup (n := 3) (a := 4) (b := 9) (s := exS0) (s' := exS1) (t := exT0) rfl rfl).not_reach
+    (.step (c := .arr [7, 8]) rfl (by simp [Cell.children]) (.refl 7)) ⟨_, rfl, rfl⟩
+
+/-- a history through the copy: append the copy's `3` (cell 8) to the copy's inner list (cell 7) -/
+example : MutSeq 4 9 exH1 (exH1.set! 7 (.arr [5, 6, 8])) := by
+  have hs : Sep exH1 4 9 := sep_after_dup (n := 3) (a := 4) (b := 9) (s := exS0) (s' := exS1) (t := exT0) rfl rfl
+  have r7 : Reach exH1 9 7 := .step (c := .arr [7, 8]) rfl (by simp [Cell.children]) (.refl 7)
+  have r8 : Reach exH1 9 8 := .step (c := .arr [7, 8]) rfl (by simp [Cell.children]) (.refl 8)
+  refine .write r7 ⟨_, rfl, rfl⟩ (fun x hx => ?_) (.done _)
+  simp only [Cell.children, List.mem_cons, List.not_mem_nil, or_false] at hx
+  rcases hx with rfl | rfl | rfl
+  · exact sep_child_of_reach hs (r7.trans (.step (c := .arr [5, 6]) rfl (by simp [Cell.children]) (.refl 5)))
+  · exact sep_child_of_reach hs (r7.trans (.step (c := .arr [5, 6]) rfl (by simp [Cell.children]) (.refl 6)))
+  · exact sep_child_of_reach hs r8
+/-- … after which the original reads as before while the copy reads differently -/
+example : content 3 (exH1.set! 7 (.arr [5, 6, 8])) 4 = some exT0 := by rfl
+example : content 3 (exH1.set! 7 (.arr [5, 6, 8])) 9 = some (.list [.list [.num 1, .num 2, .num 3], .num 3]) := by rfl
+
+/-- mutators_frame / push_back_is_mutation_through: a run of 后增 on the copy's inner list -/
+example : builtinMethod 3 7 "后增" [8] exS1 =
+    (.ok 7, { exS1 with heap := (exH1.push (.num 3)).set! 7 (.arr [5, 6, 10]) }) := by rfl
+
+/-- a running machine: one module, one frame, `丙` bound to the list `[1]` at address 1 -/
+def exRun : VM Int :=
+  { heap := #[.num 1, .arr [0]],
+    scopes := [(0, { syms := [{ name := "丙", depth := 0, isConst := false, ext := none, val := 1 }] })],
+    csModuleID := 0, stack := [{ moduleId := 0, callType := 1 }] }
+
+/-- vardecl_stores_copy: `令 甲、乙 为 丙` succeeds (two distinct names) -/
+example : ∃ r s', evalStmt 6 (.varDecl 1 [(1, [⟨1, "甲"⟩, ⟨1, "乙"⟩], .id ⟨1, "丙"⟩)]) exRun = (.ok r, s') := ⟨_, _, rfl⟩
+example : (([⟨1, "甲"⟩, ⟨1, "乙"⟩] : List Ident).map (·.lit)).Nodup := by decide
+/-- assign_stores_copy: `丙 = 【"x"】` succeeds -/
+example : ∃ r s', evalExpr 6 (.assign 1 (.id ⟨1, "丙"⟩) (.arr 1 [.str 1 "x"])) exRun = (.ok r, s') := ⟨_, _, rfl⟩
+/-- element_assign_stores_copy: `丙#1 = 【"x"】` succeeds -/
+example : ∃ r s', evalExpr 6 (.assign 1 (.member 1 1 (.id ⟨1, "丙"⟩) 2 none (.id ⟨1, "1"⟩)) (.arr 1 [.str 1 "x"])) exRun
+    = (.ok r, s') := ⟨_, _, rfl⟩
+/-- iterate_unfolds: `以 甲 遍历 丙：（空）` runs -/
+example : ∃ r s', evalStmt 6 (.iterate 1 (.id ⟨1, "丙"⟩) [⟨1, "甲"⟩] (some [])) exRun = (.ok r, s') := ⟨_, _, rfl⟩
+/-- literals_fresh: a list literal evaluates to a new cell -/
+example : ∃ s', evalExpr 6 (.arr 1 [.str 1 "x"]) exRun = (.ok 3, s') := ⟨_, rfl⟩
+example : IsLiteral (.arr 1 [.str 1 "x"]) := .inl ⟨_, _, rfl⟩
+
+/-- a type `T` (cell 2) whose default for property `p` is the list `[1]` (cell 1); an instance (cell 4) holding an
+object (cell 3) inside a list -/
+def exObj : VM Int :=
+  { heap := #[.num 1, .arr [0], .cls "T" .default [("p", 1)] [], .obj 2 [("p", 1)], .arr [3]] }
+
+/-- new_object_copies_defaults / two_objects_share_no_defaults: the defaults are readable -/
+example : (([("p", 1)] : List (String × Addr)).map Prod.snd).mapM (content 2 exObj.heap) = some [.list [.num 1]] := by rfl
+example : ∃ o s', construct 3 2 [] exObj = (.ok o, s') := ⟨_, _, rfl⟩
+/-- objects_shared: a list holding an object; the object is a reference cell reachable from the list -/
+example : content 2 exObj.heap 4 = some (.list [.ref 3]) := by rfl
+example : IsRef exObj.heap 3 := ⟨.obj 2 [("p", 1)], rfl, rfl, by intro h; cases h⟩
+example : Reach exObj.heap 4 3 := .step (c := .arr [3]) rfl (by simp [Cell.children]) (.refl 3)
+example : dup 2 4 exObj = (.ok 5, { exObj with heap := exObj.heap.push (.arr [3]) }) := by rfl
+/-- property_write_seen_by_all: a property write on the object succeeds -/
+example : ∃ s', setProperty 3 "p" 0 exObj = (.ok (), s') := ⟨_, rfl⟩
+
+/-- **acyclicity is not an invariant of the evaluator** (DESIGN §6 C07 `acyclic_preserved`): 合并 stores the elements of its
+argument lists by reference, so `以 A（合并：【A】）` — cell 1 is `A = 【1】`, cell 2 is the literal `【A】` — makes `A` an
+element of itself; by `dup_on_cycle_never_returns` no copying site returns on it any more (the Go process recurses
+until its stack is exhausted — confirmed on the real code, reported under C10). -/
+example : builtinMethod 1 1 "合并" [2] ({ heap := #[.num 1, .arr [0], .arr [1]] } : VM Int) =
+    (.ok 3, { heap := #[.num 1, .arr [0, 1], .arr [1], .arr [0, 1]] }) := by rfl
+example (n : Nat) : (dup n 1 ({ heap := #[.num 1, .arr [0, 1], .arr [1], .arr [0, 1]] } : VM Int)).1 = .fuel :=
+  dup_on_cycle_never_returns n _ 1 rfl rfl
+
+end examples
 
 end ZnVerif.Properties.C07
